@@ -59,6 +59,8 @@ var DeferCorpus = []Op{
 	{Name: "defer-list", Query: `{ users { id ... @defer { name } } }`},
 	{Name: "defer-list-label", Query: `{ users { id ... @defer(label:"u") { name rank } } }`},
 	{Name: "defer-nested", Query: `{ users { id ... @defer(label:"o") { best { id ... @defer(label:"i") { name } } } } }`},
+	{Name: "defer-nested-sibling", Query: `{ users { id ... @defer(label:"o") { nick best { id ... @defer(label:"i") { name } } } } }`},
+	{Name: "defer-nested-sibling-me", Query: `{ me { id ... @defer(label:"o") { name boss { id ... @defer(label:"i") { nick } } friends { id } } } }`},
 	{Name: "defer-nested-me", Query: `{ me { id ... @defer { boss { id ... @defer { nick } } } } }`},
 	{Name: "defer-if-false", Query: `{ me { id ... @defer(if:false) { name } } }`},
 	{Name: "defer-if-var", Query: `query($d:Boolean!){ me { id ... @defer(if:$d, label:"v") { name } } }`, Vars: map[string]any{"d": true}},
@@ -76,4 +78,22 @@ var SubCorpus = []Op{
 	{Name: "sub-ticks", Query: `subscription { ticks(n: 3) }`},
 	{Name: "sub-events", Query: `subscription { events { id title author { name } } }`},
 	{Name: "sub-events-alias", Query: `subscription { e: events { id related { __typename id } } }`},
+}
+
+// FaultArgCorpus are operations whose argument coercion fails in the probe's custom scalar.
+var FaultArgCorpus = []Op{
+	{Name: "arg-err", Query: `{ echo(b:"BLOB_ERR") hello }`},
+	{Name: "arg-panic", Query: `{ hello echo(b:"BLOB_PANIC") me { name } }`},
+	{Name: "arg-nested-err", Query: `{ search(f:{nested:{blob:"BLOB_ERR"}}) { __typename } maybe }`},
+	{Name: "arg-nested-panic", Query: `{ search(f:{blob:"BLOB_PANIC"}) { __typename } users { id } }`},
+	{Name: "arg-var-err", Query: `query($b: Blob!){ echo(b:$b) hello }`, Vars: map[string]any{"b": "BLOB_ERR"}},
+	{Name: "arg-var-panic", Query: `query($f: Filter){ search(f:$f) { __typename } hello }`, Vars: map[string]any{"f": map[string]any{"blob": "BLOB_PANIC"}}},
+	{Name: "arg-ok-and-bad", Query: `{ a: echo(b:"fine") b: echo(b:"BLOB_ERR") c: echo(b:"BLOB_PANIC") }`},
+}
+
+// BlobCorpus selects custom-scalar values (serialisation-time fault points).
+var BlobCorpus = []Op{
+	{Name: "blob-me", Query: `{ me { id blob } hello }`},
+	{Name: "blob-echo", Query: `{ echo(b:"v") maybe }`},
+	{Name: "blob-users", Query: `{ users { blob name } }`},
 }
